@@ -1096,3 +1096,154 @@ Proof.
   destruct (s_state s); destruct c; try discriminate;
     repeat match type of H with context [if ?b then _ else _] => destruct b end; discriminate.
 Qed.
+
+Lemma seq_lt_irrefl_if : forall (a b : Z), (if seq_lt a a then b else a) = a.
+Proof. intros. rewrite seq_lt_irrefl. reflexivity. Qed.
+
+(* facts (A) and (B) of the design: after the acknowledgement bookkeeping, a socket that may still
+   have something unacknowledged has an armed timer or nothing in flight; and an acknowledgement
+   that covers everything sent leaves nothing in flight *)
+Lemma process_mid_K : forall s2 s3 s5 c r aall,
+  tcp_live_inv s2 -> seg_ok r ->
+  trans_link s2 s3 c r ->
+  (c = CSyn <-> r_control r = CSyn) -> r_control r <> CRst ->
+  (s_state s2 = Listen -> r_ack_number r = None) ->
+  (s_state s2 = SynSent -> forall a, r_ack_number r = Some a -> a = seq_add (s_local_seq_no s2) 1) ->
+  (forall a, r_ack_number r = Some a ->
+     a = s_local_seq_no s2 \/ seq_lt (s_local_seq_no s2) a = true) ->
+  (s_state s2 <> Listen -> s_state s2 <> SynSent -> r_ack_number r <> None) ->
+  (aall = true -> exists a, r_ack_number r = Some a /\ seq_le (s_remote_last_seq s2) a = true) ->
+  (* s5: state of s3, timer of s3 or FastRetransmit, SND.UNA / SND.NXT updated by the ACK *)
+  s_state s5 = s_state s3 ->
+  (s_timer s5 = s_timer s3 \/ s_timer s5 = TFastRetransmit) ->
+  match r_ack_number r with
+  | None => s_local_seq_no s5 = s_local_seq_no s3 /\ s_remote_last_seq s5 = s_remote_last_seq s3
+  | Some a => s_local_seq_no s5 = a /\
+              s_remote_last_seq s5 = (if seq_lt (s_remote_last_seq s3) a then a else s_remote_last_seq s3)
+  end ->
+  (st_live (s_state s5) = true -> timer_armed (s_timer s5) = true \/ s_remote_last_seq s5 = s_local_seq_no s5) /\
+  (aall = true -> s_remote_last_seq s5 = s_local_seq_no s5).
+Proof.
+  intros s2 s3 s5 c r aall I (_ & Hack & _) L Hsyn Hrst Hl Hss Hfresh Hsome Hall E1 Et Eseq.
+  pose proof (li_una s2 I) as Hu. pose proof (li_nxt s2 I) as Hx.
+  destruct L as [(Lst & Leq & Lidle) | [(Lst & Lc & Lu & Lt & Ln) | (Ln1 & Ln2 & Lu & Lx & Llive)]].
+  - (* LISTEN + SYN *)
+    rewrite (Hl Lst) in *. destruct Eseq as (Eu & Ex). split.
+    + intros _. right. congruence.
+    + intros Ha. destruct (Hall Ha) as (a & Ea & _). discriminate.
+  - (* SYN-SENT + SYN *)
+    destruct (r_ack_number r) as [a|] eqn:Ea.
+    + pose proof (Hss Lst a eq_refl) as Haa. destruct Eseq as (Eu & Ex).
+      cbn [is_some] in Ln. rewrite Ln, <- Haa, seq_lt_irrefl in Ex.
+      split; intros; [right|]; congruence.
+    + destruct Eseq as (Eu & Ex). cbn [is_some] in Ln. split.
+      * intros _. assert (Hlive : st_live (s_state s2) = true) by (rewrite Lst; reflexivity).
+        destruct (li_K s2 I Hlive) as [Ha | (Hfl & _)].
+        -- left. destruct Et as [Et|Et]; rewrite Et; [rewrite Lt; exact Ha | reflexivity].
+        -- right. congruence.
+      * intros Ha. destruct (Hall Ha) as (a & Ea' & _). discriminate.
+  - (* every other arm: SND.UNA, SND.NXT untouched by the table *)
+    destruct (r_ack_number r) as [a|] eqn:Ea; [|exfalso; exact (Hsome Ln1 Ln2 eq_refl)].
+    destruct Eseq as (Eu & Ex). rewrite Lx in Ex. split.
+    + intros Hlive5. rewrite E1 in Hlive5. destruct (Llive Hlive5) as (Hlive2 & Lt).
+      destruct (li_K s2 I Hlive2) as [Ha | (Hfl & _)].
+      * left. destruct Et as [Et|Et]; rewrite Et; [rewrite Lt; exact Ha | reflexivity].
+      * right. rewrite Ex, Eu, Hfl. destruct (Hfresh a eq_refl) as [Hf|Hf].
+        -- rewrite Hf. apply seq_lt_irrefl_if.
+        -- rewrite Hf. reflexivity.
+    + intros Ha. destruct (Hall Ha) as (a' & Ea' & Hle). inversion Ea'; subst a'.
+      rewrite Ex, Eu. destruct (seq_lt (s_remote_last_seq s2) a) eqn:Hlt; [reflexivity|].
+      apply seq_le_not_lt_eq; assumption.
+Qed.
+
+Theorem process_inv : forall cx s ip r s' reply tags,
+  ctx_ok cx -> seg_ok r -> tcp_live_inv s ->
+  tcp_process cx s ip r = Ok (s', reply, tags) -> tcp_live_inv s'.
+Proof.
+  intros cx s ip r s' reply tags Hcx Hseg I H. unfold tcp_process in H.
+  destruct (negb (tcp_accepts s ip r)); [discriminate|].
+  obind_inv H. rename a into p1. rename E into H1.
+  destruct p1 as [t1 []|t1 s1 rep1].
+  2:{ inversion H; subst s'. exact (ack_check_ret _ _ _ _ _ _ _ H1 I). }
+  obind_inv H. rename a into p2. rename E into H2.
+  pose proof (process_window_spec _ _ _ _ _ H2 I) as P2.
+  destruct p2 as [t2 ((s2, payload), off)|t2 s2r rep2].
+  2:{ inversion H; subst s'. exact P2. }
+  pose proof (inv_core_eq _ _ P2 I) as I2.
+  destruct P2 as (C1 & C2 & C3 & C4 & C5 & C6 & C7 & C8 & C9 & C10).
+  obind_inv H. destruct a as ((al, aof), aall). rename E into Hal.
+  destruct (ack_len_spec _ _ _ _ _ Hal) as (Hof & Hall).
+  obind_inv H. rename a into p3. rename E into H3.
+  destruct p3 as [t3 s3|t3 s3r rep3].
+  2:{ inversion H; subst s'. exact (transition_ret _ _ _ _ _ _ _ _ _ _ H3 I2). }
+  pose proof (transition_cont_not_rst _ _ _ _ _ _ _ _ _ H3) as Hnr.
+  destruct (quash_spec s2 r) as (Qr & Qs & _).
+  assert (Hrst : r_control r <> CRst) by (intros X; apply Hnr; apply Qr; exact X).
+  destruct (transition_cont _ _ _ _ _ _ _ _ _ H3 (inv_weak _ I2) Hcx Hseg) as (W3 & Tx3 & Nd3 & L3).
+  obind_inv H. destruct a as (s4, wu). rename E into H4.
+  destruct (update_remote_spec _ _ _ _ _ _ H4 W3 Hseg) as (W4 & S4 & T4 & U4 & X4 & K4 & Len4).
+  obind_inv H. destruct a as (s5, t5). rename E into H5.
+  destruct (dup_ack_spec _ _ _ _ _ _ _ H5 W4 Hseg) as (W5 & S5 & B5 & Wn5 & K5 & T5 & Seq5).
+  (* the TSval bookkeeping touches nothing we read *)
+  set (q5 := match r_timestamp r with
+             | Some (tsval, _) => upd_last_remote_tsval s5 tsval
+             | None => s5
+             end) in *.
+  assert (Cq : core_eq s5 q5 /\ s_keep_alive q5 = s_keep_alive s5).
+  { unfold q5. destruct (r_timestamp r) as [(tv, te)|]; [split; [core_triv | reflexivity]|].
+    split; [apply core_eq_refl | reflexivity]. }
+  destruct Cq as ((D1 & D2 & D3 & D4 & D5 & D6 & D7 & D8 & D9 & D10) & D11). clearbody q5.
+  pose proof (timers_spec cx q5 al aall) as P6.
+  destruct (tcp_process_timers cx q5 al aall) as (s6, t6). cbn [fst] in P6.
+  destruct P6 as ((F1 & F2 & F3 & F4 & F5 & F6 & F7 & F8 & F9 & F10) & Ft6).
+  pose proof (zwp_spec cx s6 al) as P7.
+  destruct (tcp_process_zwp cx s6 al) as (s7, t7). cbn [fst] in P7.
+  destruct P7 as ((G1 & G2 & G3 & G4 & G5 & G6 & G7 & G8 & G9 & G10) & Ft7).
+  obind_inv H. destruct a as ((s8, rep8), t8). rename E into H8.
+  pose proof (payload_core _ _ _ _ _ _ _ _ _ H8) as C8'.
+  inversion H; subst s'. clear H.
+  apply (inv_core_eq _ _ C8').
+  (* ack-check facts, transported from s to s2 *)
+  destruct (ack_check_fresh _ _ _ _ _ H1 (li_una s I) Hseg Hrst) as (Al & Ass & Afr & Aso).
+  rewrite <- C1 in Al, Ass, Aso. rewrite <- C5 in Ass, Afr.
+  (* mid-point facts *)
+  assert (Hmid := process_mid_K s2 s3 s5 _ r aall I2 Hseg L3 Qs Hrst Al
+                    (fun X => proj2 (Ass X)) Afr Aso Hall).
+  rewrite S5, S4 in Hmid. specialize (Hmid eq_refl).
+  rewrite T4 in T5. specialize (Hmid T5).
+  rewrite U4, X4 in Seq5. specialize (Hmid Seq5). destruct Hmid as (HA & HB).
+  (* weak invariant of s7 *)
+  assert (W5q : tcp_weak_inv q5).
+  { weak_destruct W5. constructor; rewrite ?D1, ?D2, ?D3, ?D4, ?D5, ?D6, ?D7, ?D8, ?D9, ?D10; assumption. }
+  assert (Hlive_nc : st_live (s_state s5) = true -> timer_is_close (s_timer s5) = false).
+  { intros Hl. destruct (timer_is_close (s_timer s5)) eqn:Ec; [|reflexivity].
+    destruct (wi_close s5 W5 Ec) as [X|X]; rewrite X in Hl; discriminate. }
+  assert (Hclose6 : timer_is_close (s_timer s6) = true -> timer_is_close (s_timer q5) = true).
+  { rewrite Ft6. unfold timers_fn.
+    destruct (s_timer q5); try destruct aall; try destruct (al >? 0); cbn; auto. }
+  assert (W6 : tcp_weak_inv s6).
+  { apply (weak_inv_timer q5 s6 W5q); [repeat split; assumption | exact Hclose6]. }
+  assert (Hclose7 : timer_is_close (s_timer s7) = true -> timer_is_close (s_timer s6) = true).
+  { rewrite Ft7. unfold zwp_fn.
+    repeat match goal with |- context [if ?b then _ else _] => destruct b end;
+      destruct (s_timer s6); cbn; auto. }
+  assert (W7 : tcp_weak_inv s7).
+  { apply (weak_inv_timer s6 s7 W6); [repeat split; assumption | exact Hclose7]. }
+  apply (weak_inv_full s7 W7).
+  - (* no data in the states that cannot have any *)
+    rewrite G1, F1, D1, S5, S4, G3, F3, D4, B5. intros Hn.
+    pose proof (wi_tx s4 W4) as (Hl4 & _).
+    destruct (Nd3 Hn) as [Hn2 | Hf].
+    + pose proof (li_nodata s2 I2 Hn2) as Hz. rewrite Len4, Tx3, Hz in *.
+      destruct (al >? 0) eqn:Hp; lia.
+    + specialize (Hof Hf). rewrite Len4, Tx3, <- Hof in *. destruct (al >? 0) eqn:Hp; lia.
+  - (* the core clause *)
+    unfold live_K. rewrite G1, F1, D1, S5, S4. intros Hlive. rewrite S5, S4 in Hlive_nc.
+    pose proof (wi_tx s5 W5) as (Hl5 & _).
+    destruct (K_after_timer_phases (s_timer s5) (cx_now cx) (s_keep_alive s5)
+                (rtte_retransmission_timeout (s_rtte s5)) al aall
+                (s_local_seq_no s5) (s_remote_last_seq s5) (s_remote_win_len s5)
+                (rb_len (s_tx_buffer s5)) ltac:(lia) (Hlive_nc Hlive) (HA Hlive) HB) as (_ & HK).
+    rewrite Ft7. rewrite ?G3, ?G4, ?G5, ?G6. rewrite Ft6. rewrite ?F3, ?F4, ?F5, ?F6, ?F9, ?F10.
+    rewrite ?D2, ?D4, ?D5, ?D6, ?D7, ?D10, ?D11. exact HK.
+Qed.
